@@ -962,3 +962,9 @@ package core
 //@   ensures[C01.pi_search_leaves_keys_alone]  piKeysUnchanged()
 //@   ensures[C01.pi_search_leaves_ids_alone]   piIdsUnchanged()
 //@   loop 2: invariant[C01.pi_search_loop] piNodesUnchanged() && piKeysUnchanged() && piIdsUnchanged()
+
+// C02: "searching returns exactly the stored facts that match": when add() stores the fact, the id is in the term index under
+// every term extracted from the fact being stored (so a constant of the new value finds it).
+//@ func (*IndexedState).add
+//@   loop 1: invariant[C02.ix_add_index_loop] forall(t, string, forall(k, int, 0 <= k && k <= rangeindex && terms[k] == t ==> hasEntry(s.FactIndex, t, id)))
+//@   assert[C02.ix_add_indexes_every_term_of_the_stored_fact] at "s.IdToFact[id]": forall(t, string, forall(k, int, 0 <= k && k < len(terms) && terms[k] == t ==> hasEntry(s.FactIndex, t, id)))
